@@ -7,6 +7,9 @@ import sys
 sys.path.insert(0, 'tools'); sys.path.insert(0, '.')
 import vlib
 vlib.build_lib('hooks')
+# the sanitizer variants used by the quick tier of C11 (san) and C17 (tsan); asan is built on demand by thorough tiers
+vlib.build_lib('san')
+vlib.build_lib('tsan')
 from checks import common
 common.enc_record_exe()
 vlib.build_harness('srm_stress', ['srm_stress.c'])
